@@ -717,6 +717,7 @@ func matchKey(k, w string) bool {
 	if w == "*" {
 		return true
 	}
+	k = baseKey(k)
 	if k == w || strings.HasPrefix(k, w+"#") {
 		return true
 	}
